@@ -2,6 +2,8 @@ import StorageModel.Driver.Common
 import StorageModel.C05.Model
 import StorageModel.C05.Spec
 import StorageModel.C05.SelfW
+import StorageModel.C05.Schema
+import StorageModel.C05.SchemaSpec
 /- model driver for C05: `run spec` reads case lines on stdin and prints one output line per case
    (spec = false: the engine model's output; spec = true: the spec's verdict).
    Case and output formats: see /verif/harness/c05.go. -/
@@ -161,9 +163,184 @@ def stepLine (spec : Bool) (pa : String) (txs : List String) : String :=
 
 end SelfDrv
 
+
+/-! ### schema-parametrised cases (`G <schema> <poolA> <poolB> <tx> …`): C05/Schema.lean and
+    C05/SchemaSpec.lean.  Formats: see /verif/harness/c05_schema.go -/
+
+namespace SchemaDrv
+open StorageModel.C05.Schema
+
+def parseBool (c : Char) : Bool := c == '1'
+
+def parseColl (s : String) : Option Coll :=
+  match s.toList with
+  | ['p', a, b] => some (.plain (parseBool a) (parseBool b))
+  | ['r', a, b] => some (.rc (parseBool a) (parseBool b))
+  | ['s', f, c] => some (.self (if f == 'A' then .A else .B) (parseBool c))
+  | _ => none
+
+/-- `<collections>[@<extA><extB>]`: the declared collections ("-" = none) and, optionally, which
+    family's child store is extended -/
+def parseSchema (s : String) : Schema :=
+  let parts := s.splitOn "@"
+  let cs := parts.headD "-"
+  let colls := if cs == "-" then [] else (cs.splitOn ",").filterMap parseColl
+  let flags := (parts.getD 1 "00").toList
+  let ea := parseBool (flags.getD 0 '0')
+  let eb := parseBool (flags.getD 1 '0')
+  { colls := colls, ext := fun sd => match sd with | .A => ea | .B => eb }
+
+def parseStore (s : String) : Store :=
+  match s with
+  | "A" => ⟨.A, false⟩
+  | "B" => ⟨.B, false⟩
+  | "a" => ⟨.A, true⟩
+  | _ => ⟨.B, true⟩
+
+def parseOp (s : String) : Option (GOp Key) :=
+  match s.splitOn ":" with
+  | ["c", x, id] => some (.create (parseStore x) (parseKey id) (parseKey id).isEmpty none)
+  | ["cl", x, id, i, ks] => some (.create (parseStore x) (parseKey id) (parseKey id).isEmpty (some (i.toNat!, parseList ks)))
+  | ["u", x, id, i, ks, p] => some (.update (parseStore x) (parseKey id) i.toNat! (parseList ks) (p != "0"))
+  | ["d", x, id] => some (.delete (parseStore x) (parseKey id))
+  | ["al", i, sd, id, ks] => some (.link i.toNat! (.addLinks (parseSide sd) (parseKey id) (parseList ks)))
+  | ["rl", i, sd, id, ks] => some (.link i.toNat! (.removeLinks (parseSide sd) (parseKey id) (parseList ks)))
+  | ["sl", i, sd, id, ks] => some (.link i.toNat! (.setLinks (parseSide sd) (parseKey id) (parseList ks)))
+  | ["a1", i, sd, id, k] => some (.link i.toNat! (.addLink (parseSide sd) (parseKey id) (parseKey k)))
+  | ["r1", i, sd, id, k] => some (.link i.toNat! (.removeLink (parseSide sd) (parseKey id) (parseKey k)))
+  | ["gl", i, sd, id] => some (.link i.toNat! (.getLinks (parseSide sd) (parseKey id)))
+  | ["il", i, sd, id, k] => some (.link i.toNat! (.isLinked (parseSide sd) (parseKey id) (parseKey k)))
+  | ["inc", i, sd, id, k] => some (.count i.toNat! (.incr (parseSide sd) (parseKey id) (parseKey k)))
+  | ["dec", i, sd, id, k] => some (.count i.toNat! (.decr (parseSide sd) (parseKey id) (parseKey k)))
+  | ["set", i, sd, id, k, n] => (n.toInt?).map fun c => .count i.toNat! (.setCount (parseSide sd) (parseKey id) (parseKey k) c)
+  | ["gc", i, sd, id, k] => some (.count i.toNat! (.getCounts (parseSide sd) (parseKey id) (parseKey k)))
+  | _ => none
+
+/-- what the read API answers, from a model state or from a spec state -/
+structure Reader where
+  has : Store → Key → Bool
+  links : Nat → Side → Key → List Key
+  counts : Nat → Side → Key → List (Key × Int)
+  count : Nat → Side → Key → Key → Option Int
+
+def ofModel (g : GSt Key) : Reader where
+  has := g.ents
+  links i sd id := linksOf (g.slots i) (sd, id)
+  counts i sd id := match (g.slots i).get (sd, id) with
+    | some e => rcSorted e.rc
+    | none => []
+  count i sd id k := rcOf (g.slots i) (sd, id) k
+
+def ofSpec (sc : Schema) (g : GSSt Key) : Reader where
+  has := g.ents
+  links i sd id := match sc.colls[i]? with
+    | some (.self _ _) => SelfW.L (g.selfs i) id
+    | _ => Spec.partners (g.rels i) sd id
+  counts i sd id := sortBy (fun (a b : Key × Int) => bytesLt a.1 b.1)
+    (((g.rels i).cnt.filter fun e => Spec.mentions sd id e.1).map fun e => ((match sd with | .A => e.1.2 | .B => e.1.1), e.2))
+  count i sd id k := Spec.count (g.rels i) sd id k
+
+def famName : Side → String
+  | .A => "A"
+  | .B => "B"
+
+def enumFrom {α : Type} (l : List α) : List (Nat × α) := (List.range l.length).zip l
+
+def dedupKeys (l : List Key) : List Key := l.foldl (fun acc k => if acc.contains k then acc else acc ++ [k]) []
+
+def view (sc : Schema) (r : Reader) (poolA poolB candA candB : List Key) : String :=
+  let pool (sd : Side) := match sd with | .A => poolA | .B => poolB
+  let cand (sd : Side) := match sd with | .A => candA | .B => candB
+  let ents := String.join ([Side.A, Side.B].map fun f => String.join ((pool f).map fun id =>
+    famName f ++ "." ++ Bytes.toWire id ++ "=" ++ tf (r.has ⟨f, false⟩ id) ++ tf (r.has ⟨f, true⟩ id) ++ ";"))
+  let colls := String.join ((enumFrom sc.colls).map fun (i, c) =>
+    "#" ++ toString i ++ ":" ++
+    match c with
+    | .plain _ _ => String.join ([Side.A, Side.B].map fun sd => String.join ((pool sd).map fun id =>
+        let ls := r.links i sd id
+        sideName sd ++ "." ++ Bytes.toWire id ++ "=" ++ wires ls ++ "/" ++ wires ls ++ "/"
+          ++ String.join ((pool sd.other).map fun k => tf (ls.contains k)) ++ ";"))
+    | .rc _ _ => String.join ([Side.A, Side.B].map fun sd => String.join ((pool sd).map fun id =>
+        let rc := r.counts i sd id
+        sideName sd ++ "." ++ Bytes.toWire id ++ "="
+          ++ ",".intercalate (rc.map fun p => Bytes.toWire p.1 ++ ":" ++ toString p.2) ++ "/"
+          ++ wires (rc.map (·.1)).reverse ++ "/"
+          ++ ",".intercalate ((pool sd.other).map fun k => optI (r.count i sd id k) ++ "~" ++ optI (r.count i sd.other k id))
+          ++ ";"))
+    | .self f _ => String.join ((pool f).map fun id =>
+        let ls := r.links i .A id
+        Bytes.toWire id ++ "=" ++ wires ls ++ "/" ++ wires ls ++ "/"
+          ++ String.join ((pool f).map fun k => tf (ls.contains k)) ++ ";"))
+  let dump := String.join ([Side.A, Side.B].map fun f =>
+    let ids := sortBy bytesLt ((dedupKeys (cand f)).filter fun id => r.has ⟨f, false⟩ id)
+    String.join (ids.map fun id =>
+      famName f ++ "." ++ Bytes.toWire id ++ (if r.has ⟨f, true⟩ id then "+" else "") ++
+      String.join ((enumFrom sc.colls).map fun (i, c) =>
+        match c.famSide f with
+        | none => ""
+        | some s =>
+          let body := match c with
+            | .rc _ _ => ",".intercalate ((r.counts i s id).map fun q => Bytes.toWire q.1 ++ ":" ++ toString q.2)
+            | _ => wires (r.links i s id)
+          if body.isEmpty then "" else "^" ++ toString i ++ "=" ++ body) ++ ";"))
+  ents ++ colls ++ "#D" ++ dump
+
+/-- ids a history may create, per family: pools and every id of a create operation -/
+def candidates (txs : List (List (GOp Key))) (pool : List Key) (f : Side) : List Key :=
+  pool ++ (txs.flatten.filterMap fun op =>
+    match op with
+    | .create x id _ _ => if x.side = f then some id else none
+    | _ => none)
+
+def runTxModel (sc : Schema) (g : GSt Key) (ops : List (GOp Key)) (vw : GSt Key → String) : GSt Key × String :=
+  let rec go (cur : GSt Key) (ops : List (GOp Key)) (acc : List String) : GSt Key × List String × String :=
+    match ops with
+    | [] => (cur, acc.reverse, "")
+    | op :: rest =>
+      let o := gstep sc cur op
+      match o.err with
+      | some e => (g, ((showRet o.ret ++ showErr e) :: acc).reverse, vw o.st)
+      | none => go o.st rest (showRet o.ret :: acc)
+  let r := go g ops []
+  (r.1, ";".intercalate r.2.1 ++ "|" ++ r.2.2 ++ "|" ++ vw r.1)
+
+def runTxSpec (sc : Schema) (g : GSSt Key) (ops : List (GOp Key)) (vw : GSSt Key → String) : GSSt Key × String :=
+  let rec go (cur : GSSt Key) (ops : List (GOp Key)) (acc : List String) : GSSt Key × List String × String :=
+    match ops with
+    | [] => (cur, acc.reverse, "")
+    | op :: rest =>
+      match gsstep sc cur op with
+      | none => (g, ("!" :: acc).reverse, "*")
+      | some (g', ret) => go g' rest (showRet ret :: acc)
+  let r := go g ops []
+  (r.1, ";".intercalate r.2.1 ++ "|" ++ r.2.2 ++ "|" ++ vw r.1)
+
+def stepLine (spec : Bool) (scs pa pb : String) (txs : List String) : String :=
+  let sc := parseSchema scs
+  let poolA := parseList pa
+  let poolB := parseList pb
+  let ptxs := txs.map fun t => (t.splitOn ";").filterMap parseOp
+  let candA := candidates ptxs poolA .A
+  let candB := candidates ptxs poolB .B
+  if spec then
+    let vw := fun (g : GSSt Key) => view sc (ofSpec sc g) poolA poolB candA candB
+    let r := ptxs.foldl (fun (acc : GSSt Key × List String) t =>
+      let o := runTxSpec sc acc.1 t vw
+      (o.1, acc.2 ++ [o.2])) (({} : GSSt Key), [])
+    " ".intercalate r.2
+  else
+    let vw := fun (g : GSt Key) => view sc (ofModel g) poolA poolB candA candB
+    let r := ptxs.foldl (fun (acc : GSt Key × List String) t =>
+      let o := runTxModel sc acc.1 t vw
+      (o.1, acc.2 ++ [o.2])) ((g0 : GSt Key), [])
+    " ".intercalate r.2
+
+end SchemaDrv
+
 def step (line : String) : String :=
   match splitSp line with
   | "S" :: pa :: txs => SelfDrv.stepLine false pa txs
+  | "G" :: sc :: pa :: pb :: txs => SchemaDrv.stepLine false sc pa pb txs
   | _kind :: pa :: pb :: txs =>
     let poolA := parseList pa
     let poolB := parseList pb
@@ -215,6 +392,7 @@ def specStep (line : String) : String :=
   match splitSp line with
   | "X" :: _ => "outside-vocabulary"
   | "S" :: pa :: txs => SelfDrv.stepLine true pa txs
+  | "G" :: sc :: pa :: pb :: txs => SchemaDrv.stepLine true sc pa pb txs
   | _kind :: pa :: pb :: txs =>
     let poolA := parseList pa
     let poolB := parseList pb
